@@ -7,6 +7,8 @@ import (
 	"path/filepath"
 	"time"
 
+	abcitypes "github.com/tendermint/tendermint/abci/types"
+
 	"github.com/shutter-network/rolling-shutter/rolling-shutter/app"
 )
 
@@ -129,7 +131,8 @@ func (u *Universe) RunTwinsC13(behaviours [][]int, alphabet []Op, tw *TraceWrite
 		}
 		var mainObs []Obs
 		var mainTx []Tx
-		var saves []int // depth (number of ops applied) at which a file copy was taken
+		endAt := map[int64]int{0: 0} // height -> depth after the "end" op that produced it
+		var saves []int             // depth (number of ops applied) at which a file copy was taken
 		files := map[int]string{}
 		n := 0
 		for d, idx := range b {
@@ -145,6 +148,11 @@ func (u *Universe) RunTwinsC13(behaviours [][]int, alphabet []Op, tw *TraceWrite
 			tw.Write(Line{K: o.Op, D: d + 1, Tx: tx, Obs: []Obs{obs}, Hist: b[:d+1]})
 			n = d + 1
 			if o.Op == "end" {
+				if _, seen := endAt[main.App.LastBlockHeight]; !seen {
+					// first block end that produced this height (a height that does not advance is
+					// reported again by later saves: Tendermint then replays from the first one)
+					endAt[main.App.LastBlockHeight] = d + 1
+				}
 				cp := filepath.Join(dir, fmt.Sprintf("save-%d-%d.gob", bi, d+1))
 				if err := copyFile(main.App.Gobpath, cp); err == nil {
 					saves = append(saves, d+1)
@@ -185,8 +193,13 @@ func (u *Universe) RunTwinsC13(behaviours [][]int, alphabet []Op, tw *TraceWrite
 			if twin == nil {
 				continue
 			}
-			// Tendermint calls BeginBlock for the next block before delivering its transactions
-			for d := s; d < n; d++ {
+			// Tendermint asks the restarted application for its height (Info) and replays the blocks
+			// after THAT height; a correct application reports the height of the save point
+			from := s
+			if rep, ok := endAt[twin.App.Info(abcitypes.RequestInfo{}).LastBlockHeight]; ok {
+				from = rep
+			}
+			for d := from; d < n; d++ {
 				o := alphabet[b[d]-1]
 				tx := mainTx[d]
 				obs := u.Exec(twin, o.Op, tx)
